@@ -175,7 +175,10 @@ template<typename Ad, typename Tr> static void run_case(int dist, size_t logStar
 				}
 				if (af) ++afails;
 				if (res == "U") ++fullc;
-				if (res == "K" && kind == 'i') ++chk;   // MOMO_CHECK(newCapacity > mCount) failed: the harness never passes invalid arguments
+				if (res == "K" || res == "X")
+				{	// the harness never passes invalid arguments: a failed MOMO_CHECK is a defect (before commit 7a001ad: MOMO_CHECK(newCapacity > mCount) after an overloading fallback insertion)
+					++chk; oracle.push_back("op " + op + " failed a MOMO_CHECK / threw an unexpected exception (" + res + ") although its arguments are valid");
+				}
 				if (res != "I" && res != "V" && res != "A")
 				{	// strong guarantee of a failed single insertion / Reserve: nothing observable changed
 					if (after.shape != before.shape || hs.GetCount() != countBefore)
